@@ -34,8 +34,11 @@ THEOREMS = [
     'Nb.C03.npIndex_lt',
     'Nb.C03.reshape_same_elements',
     'Nb.C03.reshape_orig_counterexample',
+    'Nb.C03.reshape_getitem_eq_reshaped_array',
+    'Nb.C03.reshape_fails_iff',
     'Nb.C03.frozen_params',
     'Nb.C03.afni_scaling_per_subbrick',
+    'Nb.C03.afni_scale_alongside',
     'Nb.C03.afni_zero_factor_means_one',
     'Nb.C03.afni_all_zero_no_scaling',
     'Nb.C03.parrec_whole_sequential',
